@@ -12,7 +12,7 @@ META = dict(
                 'both timeouts are symbolic integers in 0..8 (a zero timeout is legal: every item then opens a window) or None, include_closing_item both; compared with the reference interpreter that transcribes the statement '
                 '(expiry test first - at least active_timeout after the window reference or at least inactive_timeout after the previous item - then the closing test; the reference timestamp is that of the first item '
                 'or of the preceding closing item). Comparison is on the item -> window partition and its order (empty windows around closing items are neither required nor forbidden by the statement and are dropped on both sides). '
-                'Also under group_by with 2 interleaved keys. The operator only uses >= and + on timestamps, so integers stand for datetime/timedelta.',
+                'Also under group_by with 2 interleaved keys. The operator only uses >= and + on timestamps, so integers stand for datetime/timedelta; a further family uses real datetime / timedelta objects with solver-chosen sub-day and multi-day values, and one keeps 9 / 17 keys live at once.',
     bounds=dict(quick='N <= 4 items, timeouts symbolic in 0..8 or None, any non-decreasing int timestamps, closing flags symbolic; group_by: N <= 4 with 2 keys',
                 thorough='N <= 6 items (root), N <= 5 under group_by'),
     outside='datetime/timedelta objects themselves (ordered-group abstraction); decreasing timestamps; N above the bound',
@@ -74,7 +74,56 @@ def runs(p):
     return mk('time_split_runs', sig, pre, body)
 
 
-FAMILIES = {'runs': runs}
+def datetimes(p):
+    """real datetime / timedelta objects (not the integer abstraction): each item's timestamp and both timeouts are chosen by the solver from sets that contain
+    sub-day and multi-day values (23:59:59 -> next day, gaps of exactly one day, timeouts of one day and more)"""
+    from datetime import datetime, timedelta
+    n = p['n']
+    OFF = [0, 3, 86399, 86403, 200000]            # seconds after the base instant (2020-01-02 00:00:01)
+    TO = [None, timedelta(seconds=3), timedelta(days=1), timedelta(days=1, minutes=10)]
+    sig = [('t%d' % i, 'int') for i in range(n)] + [('inact', 'int')]
+    pre = ['0 <= t%d <= %d' % (i, len(OFF) - 1) for i in range(n)] + ['t%d <= t%d' % (i, i + 1) for i in range(n - 1)] + ['0 <= inact <= %d' % (len(TO) - 1)]
+
+    def sel(x, k):
+        for j in range(k - 1):
+            if x <= j:
+                return j
+        return k - 1
+
+    def body(a):
+        base = datetime(2020, 1, 2, 0, 0, 1)
+        ts = [base + timedelta(seconds=OFF[sel(a[i], len(OFF))]) for i in range(n)]
+        act, inact = TO[p['act']], TO[sel(a[n], len(TO))]
+        items = [(t, i) for i, t in enumerate(ts)]
+        inner_real = [rs.ops.map(lambda i: i[1]), rs.data.to_list(), rs.ops.map(lambda l: tuple(l))]
+        inner_ref = [R.Map(lambda i: i[1]), R.Scan(lambda acc, i: acc + [i], list, reduce=True), R.Map(lambda l: tuple(l))]
+        real = [rs.data.time_split(lambda i: i[0], active_timeout=act, inactive_timeout=inact, pipeline=inner_real)]
+        ref = [R.TimeSplit(lambda i: i[0], act, inact, None, True, inner_ref)]
+        got = [(t, v) for t, v in D.run_timed(items, real) if v != ()]
+        exp = [(t, v) for t, v in R.run(ref, items) if v != ()]
+        return got == exp or fail(timestamps=[str(t) for t in ts], active=str(act), inactive=str(inact), observed=got, expected=exp)
+    return mk('time_split_datetimes', sig, pre, body)
+
+
+def many_keys(p):
+    """K keys live at once under group_by (K crosses cache capacities 8 / 16): key 0 gets two items, every other key one, then key 0 again; the inactive timeout is symbolic"""
+    K = p['k']
+
+    def body(a):
+        inact, d = a
+        items = [(0, 0), (0, 2)] + [(k, 3) for k in range(1, K)] + [(0, 2 + d), (K - 1, 4 + d), (0, 9 + d)]
+        inner_real = [rs.ops.map(lambda i: i[1]), rs.data.to_list(), rs.ops.map(lambda l: tuple(l))]
+        inner_ref = [R.Map(lambda i: i[1]), R.Scan(lambda acc, i: acc + [i], list, reduce=True), R.Map(lambda l: tuple(l))]
+        real = [rs.ops.group_by(lambda i: i[0], [rs.data.time_split(lambda i: i[1], inactive_timeout=inact, pipeline=inner_real)])]
+        ref = [R.GroupBy(lambda i: i[0], [R.TimeSplit(lambda i: i[1], None, inact, None, True, inner_ref)])]
+        got = D.run_mux(items, real)
+        exp = [v for _, v in R.run(ref, items)]
+        from vp.props.common import multiset_eq
+        return multiset_eq(got, exp) or fail(keys=K, inactive=inact, observed=got, expected=exp)
+    return mk('time_split_many_keys', [('inact', 'int'), ('d', 'int')], ['1 <= inact <= 8', '0 <= d <= 4'], body)
+
+
+FAMILIES = {'runs': runs, 'datetimes': datetimes, 'many_keys': many_keys}
 
 
 def obligations(tier, seed):
@@ -100,5 +149,10 @@ def obligations(tier, seed):
         obs.append(Ob(PROP, 'runs', dict(n=3, act='sym', inact='sym', closing=False, include=True, ctx='root', retry=k, nozero=True), budget=400 if q else 1800, group='after an aborted subscription', bound=dict(items=3, first_subscription_aborted_after=k)))
     for ctx in ('root', 'group'):
         obs.append(Ob(PROP, 'runs', dict(n=3, act='sym', inact='sym', closing=False, include=True, ctx=ctx, after=True), budget=400 if q else 1800, bound=dict(items=3, ctx=ctx, consumer_after_time_split=True)))
+    for n in ((2, 3) if q else (2, 3, 4)):
+      for act in (0, 1, 2, 3):
+        obs.append(Ob(PROP, 'datetimes', dict(n=n, act=act), budget=400 if q else 1800, group='real datetime / timedelta values', bound=dict(items=n, timestamps='solver-chosen from a set with sub-day and multi-day gaps', timeouts='3 s .. 2 days or None')))
+    for k in ((9, 17) if q else (9, 10, 17, 33, 65)):
+        obs.append(Ob(PROP, 'many_keys', dict(k=k), budget=400 if q else 1800, group='many live keys', bound=dict(live_keys=k, inactive_timeout='1..8 symbolic')))
     obs.append(Ob(PROP, 'runs', dict(n=3, act='sym', inact='sym', closing=True, include=True, ctx='root', _twin='reach'), budget=60, expect='refute'))
     return obs
